@@ -42,7 +42,7 @@ fn op() -> BoxedStrategy<Op> {
         6 => gen::amount(1, 1u128 << 80).prop_map(|a| Op::Inflow { amount: Uint128::new(a) }),
         6 => (0u8..4).prop_map(|user| Op::Claim { user }),
         5 => (0u8..4, 0u8..2, gen::amount(1, 1u128 << 70)).prop_map(|(user, denom, a)| Op::Bond { user, denom, amount: Uint128::new(a) }),
-        2 => (0u8..4, 0u8..2, 1u16..=u16::MAX).prop_map(|(user, denom, k)| Op::Unbond { user, denom, k }),
+        2 => (0u8..4, 0u8..2, prop_oneof![3 => 1u16..=u16::MAX, 2 => Just(u16::MAX)]).prop_map(|(user, denom, k)| Op::Unbond { user, denom, k }),
         1 => (0u8..4, 0u8..2).prop_map(|(user, denom)| Op::Withdraw { user, denom }),
         1 => (1u8..3).prop_map(|by| Op::IncreaseGrace { by }),
         2 => (0u64..DAY_NS).prop_map(|ns| Op::Advance { ns }),
